@@ -395,7 +395,7 @@ func main() {
 		fk := fk
 		processFaults(o, &fk)
 	}
-	nf := o.Scale(30, 300, 300)
+	nf := o.Scale(36, 150, 300)
 	for i := 0; i < nf; i++ {
 		fk := genFaultCase(o, i)
 		processFaults(o, &fk)
